@@ -272,6 +272,14 @@ fn rewrite<A: Backend, B: Backend>(opts: &Opts, rep: &mut Report) {
         let key_raw = gen_wrapped_key::<A>(kind, &mut rng);
         let Ok(blob) = wrap::<A>(kind, &key_raw, &sa) else { continue };
         let (_, body) = split_paserk(&blob);
+        // the genuine blob is opened successfully first (and again before every rewritten one): whatever that
+        // leaves behind - in the process, not just in an object - must not vouch for a relabelled copy
+        let genuine_opens = |rep: &mut Report| {
+            if !matches!(guard(|| unwrap::<A>(kind, &blob, &sa)), Ok(Ok(k)) if k == key_raw) {
+                rep.violation(&format!("C10|{}|{}|own-blob-rejected", A::NAME, kind.name()), json!({"blob": blob}));
+            }
+        };
+        genuine_opens(rep);
         for &k2 in WKS {
             if A::VER == B::VER && k2 == kind {
                 continue; // not a rewrite
@@ -283,6 +291,7 @@ fn rewrite<A: Backend, B: Backend>(opts: &Opts, rep: &mut Report) {
                 rep.count("pbkw.skipped-out-of-budget");
                 continue;
             }
+            genuine_opens(rep);
             match guard(|| unwrap::<B>(k2, &text, &sb)) {
                 Ok(Err(_)) => {}
                 Ok(Ok(k)) => rep.violation(&format!("C10|{}|{}|header-rewrite-accepted:from-{}-{}", B::NAME, k2.name(), A::NAME, kind.name()), json!({"blob": text, "returned_key": hx_short(&k)})),
